@@ -653,6 +653,94 @@ def e2e_impl(a):
         return d.PublicKey().ToAddress()
 
 
+
+def toggle_history_direct(a):
+    """One key object kept across option toggles: after every toggle the SAME object's address must equal that of an
+    object derived afresh under the toggled configuration (and so be accepted by the coin's current decoder) --
+    C08's end-to-end clause for the switchable coins, on a history instead of a fresh object."""
+    fi, name, seed = a
+    m = member_of(fi, name)
+    conf = FAMS[fi][2].GetConfig(m)
+    W = FAMS[fi][3]
+    kept = W.FromSeed(seed, m).DeriveDefaultPath()
+    kept_pub = kept.PublicKey()
+    order = variants_of(conf)
+    order = order + order[::-1]
+    for v in order:
+        with toggled(conf, **VARIANTS[v]):
+            fresh = W.FromSeed(seed, m).DeriveDefaultPath()
+            # (extended keys are NOT compared: a key object carries the key net versions it was built with -- an
+            #  immutable field, by design -- whereas the address class and parameters are read from the coin
+            #  configuration at call time)
+            x, y = kept.PublicKey().ToAddress(), fresh.PublicKey().ToAddress()
+            if x != y:
+                return "after toggling to %s the kept object's address is %r, a fresh derivation gives %r" % (
+                    VARIANTS[v] or "default", x, y)
+            if kept_pub.ToAddress() != fresh.PublicKey().ToAddress():
+                return "after toggling to %s the kept Bip44PublicKey's ToAddress is %r, fresh %r" % (
+                    VARIANTS[v] or "default", kept_pub.ToAddress(), fresh.PublicKey().ToAddress())
+    return None
+
+
+def toggle_history_impl(a):
+    fi, name, seed = a
+    m = member_of(fi, name)
+    conf = FAMS[fi][2].GetConfig(m)
+    kept = FAMS[fi][3].FromSeed(seed, m).DeriveDefaultPath()
+    out = []
+    for v in variants_of(conf):
+        with toggled(conf, **VARIANTS[v]):
+            out.append(kept.PublicKey().ToAddress())
+    return out
+
+
+def monero_routes_direct(a):
+    """Every construction route of a Monero wallet carries the requested coin's configuration and produces that
+    network's addresses (FromSeed, FromPrivateSpendKey, FromWatchOnly, FromBip44PrivateKey with bytes and key object)."""
+    name, seed = a
+    m = member_of([i for i, f in enumerate(FAMS) if f[0] == "Monero"][0], name)
+    mconf = MoneroConfGetter.GetConfig(m)
+    if len(seed) == 32 and int.from_bytes(seed, "little") % ecref.Ed25519.L == 0:
+        return None
+    base = Monero.FromSeed(seed, m)
+    k32 = O.keccak256(seed)
+    b44 = Bip44.FromSeed(seed + bytes(max(0, 16 - len(seed))), Bip44Coins.MONERO_ED25519_SLIP).DeriveDefaultPath()
+    routes = {
+        "FromPrivateSpendKey": lambda: Monero.FromPrivateSpendKey(base.PrivateSpendKey().Raw().ToBytes(), m),
+        "FromWatchOnly": lambda: Monero.FromWatchOnly(base.PrivateViewKey().Raw().ToBytes(),
+                                                      base.PublicSpendKey().RawCompressed().ToBytes(), m),
+        "FromBip44PrivateKey(bytes)": lambda: Monero.FromBip44PrivateKey(k32, m),
+        "FromBip44PrivateKey(key)": lambda: Monero.FromBip44PrivateKey(b44.PrivateKey().Bip32Key().KeyObject(), m),
+    }
+    for rn, mk in routes.items():
+        mo = mk()
+        if mo.CoinConf() is not mconf:
+            return "Monero.%s(..., %s) carries another coin's configuration" % (rn, m.name)
+        addr = mo.PrimaryAddress()
+        exp = mo.PublicSpendKey().RawCompressed().ToBytes() + mo.PublicViewKey().RawCompressed().ToBytes()
+        try:
+            got = ADDR.XmrAddrDecoder.DecodeAddr(addr, net_ver=mconf.AddrNetVersion())
+        except ValueError as ex:
+            return "Monero.%s(..., %s): primary address %s is rejected under the coin's own net version (%s)" % (rn, m.name, addr, ex)
+        if got != exp:
+            return "Monero.%s(..., %s): primary address decodes to other keys" % (rn, m.name)
+        sub = mo.Subaddress(1, 1)
+        try:
+            ADDR.XmrAddrDecoder.DecodeAddr(sub, net_ver=mconf.SubaddrNetVersion())
+        except ValueError as ex:
+            return "Monero.%s(..., %s): sub-address %s is rejected under the coin's own sub-address net version (%s)" % (rn, m.name, sub, ex)
+        pid = bytes(range(1, 9))
+        ia = mo.IntegratedAddress(pid)
+        try:
+            ADDR.XmrIntegratedAddrDecoder.DecodeAddr(ia, net_ver=mconf.IntegratedAddrNetVersion(), payment_id=pid)
+        except ValueError as ex:
+            return "Monero.%s(..., %s): integrated address is rejected under the coin's own net version (%s)" % (rn, m.name, ex)
+    if routes["FromPrivateSpendKey"]().PrimaryAddress() != base.PrimaryAddress() or \
+            routes["FromWatchOnly"]().PrimaryAddress() != base.PrimaryAddress():
+        return "Monero construction routes disagree on the primary address for %s" % m.name
+    return None
+
+
 # ------------------------------------------------------------------------------------ aliases
 
 def aliases_direct(a):
@@ -783,6 +871,8 @@ FUNCS = {
     "conf_alias": Func(direct=conf_alias_direct),
     # end to end
     "coin_e2e": Func(impl=e2e_impl, direct=e2e_direct),
+    "toggle_history": Func(impl=toggle_history_impl, direct=toggle_history_direct),
+    "monero_routes": Func(impl=lambda a: 0, direct=monero_routes_direct),
 }
 
 
@@ -928,3 +1018,15 @@ def generate(ctx):
                 done += 1
     ctx.note_exhaustive("coin_e2e: all %d members x %d seeds (+ option-toggle variants): %d end-to-end runs" %
                         (len(MEMBERS), len(sd), done))
+    # 5. histories: one key object kept across the option toggles of every switchable coin; every Monero route x coin
+    for fi, m in MEMBERS:
+        fam = FAMS[fi][0]
+        if fam in ("Substrate", "Monero"):
+            continue
+        if len(variants_of(FAMS[fi][2].GetConfig(m))) > 1:
+            for seed in sd[:ctx.n(2, 6)]:
+                ctx.run("toggle_history", [fi, m.name, seed], fam)
+    for fi, m in MEMBERS:
+        if FAMS[fi][0] == "Monero":
+            for seed in sd[:ctx.n(3, 10)]:
+                ctx.run("monero_routes", [m.name, seed], "Monero")
